@@ -6,6 +6,7 @@ import (
 	"sort"
 	"strings"
 	"unicode"
+	"unicode/utf8"
 )
 
 func AutogenerateStructMapEntry(rt reflect.Type) *AtlasEntry {
@@ -174,11 +175,11 @@ func downcaseFirstLetter(s string) string {
 	if s == "" {
 		return ""
 	}
-	r := rune(s[0]) // if multibyte chars: you're left alone.
+	r, size := utf8.DecodeRuneInString(s)
 	if !unicode.IsUpper(r) {
 		return s
 	}
-	return string(unicode.ToLower(r)) + s[1:]
+	return string(unicode.ToLower(r)) + s[size:]
 }
 
 // dominantField looks through the fields, all of which are known to
